@@ -5,6 +5,7 @@
 -/
 import Logg.Lemmas.EncoderClean
 import Logg.Lemmas.Sgr
+import Logg.Lemmas.Layout
 
 namespace Logg.Props.C06
 open Logg Logg.Lemmas
@@ -71,6 +72,62 @@ theorem no_color_bleeds (p : Presentation) (depth : Nat) (r : Record) (out : Byt
   have := colored_record_hygiene isPrintTable isPrintTable_safe p depth r out h hin
   exact ⟨this.1.2.2, this.2, this.1.1⟩
 
+/-- colored mode produces a payload whenever ShortTag accepts the tag width and the padded first line has no markup -/
+theorem colored_payload_exists (p : Presentation) (depth : Nat) (r : Record) (tag : Bytes)
+    (hnb : (r.lvl == Lv.always && isBlank r.msg) = false)
+    (htag : p.reg.shortTag r.lvl p.tagWidth = some tag)
+    (hm : needsTranslate (rightPad (splitFirstRest r.msg).1 p.minWidth) = false) :
+    ∃ out, encodeRecord .color isPrintTable p depth r = some out := by
+  unfold encodeRecord
+  rw [if_neg (by simp [hnb])]
+  simp only [htag, hm]
+  exact ⟨_, rfl⟩
+
+/-- (7) **Faithful layout.** Once the escape sequences are removed (`stripSgr`: every `ESC [ … m`
+    is dropped, everything else kept), the payload of every colored record of the fidelity domain
+    is exactly `colorLayout`: the timestamp and `| `, the logger name and a space if there is one,
+    the tag of the configured width in brackets and a space, the first message line padded to the
+    minimal width, the attributes as ` key=value` in prepared order (ascending keys, one per key:
+    `prepAttrs`, see C07) with the members of a group under `group.member` keys, the caller
+    ` file:line function`, the remaining message lines each indented by four spaces, and the final
+    line feed. The layout is defined in Model/Layout.lean without any mention of colours. Same
+    assumptions about the inputs as in (6). -/
+theorem layout_without_escapes (p : Presentation) (depth : Nat) (r : Record) (out tag : Bytes)
+    (h : encodeRecord .color isPrintTable p depth r = some out)
+    (hnb : (r.lvl == Lv.always && isBlank r.msg) = false)
+    (htag : p.reg.shortTag r.lvl p.tagWidth = some tag)
+    (hin : ColorInputs p r depth tag) :
+    stripSgr out = colorLayout isPrintTable p.minWidth depth tag r :=
+  colored_record_layout isPrintTable isPrintTable_safe p depth r out tag h hnb htag hin
+
+/-- (7′) existence form: such a record has a payload and, without its sequences, it is the layout -/
+theorem colored_record_reads_as_layout (p : Presentation) (depth : Nat) (r : Record) (tag : Bytes)
+    (hnb : (r.lvl == Lv.always && isBlank r.msg) = false)
+    (htag : p.reg.shortTag r.lvl p.tagWidth = some tag)
+    (hm : needsTranslate (rightPad (splitFirstRest r.msg).1 p.minWidth) = false)
+    (hin : ColorInputs p r depth tag) :
+    ∃ out, encodeRecord .color isPrintTable p depth r = some out ∧
+      stripSgr out = colorLayout isPrintTable p.minWidth depth tag r := by
+  obtain ⟨out, h⟩ := colored_payload_exists p depth r tag hnb htag hm
+  exact ⟨out, h, layout_without_escapes p depth r out tag h hnb htag hin⟩
+
+/-- (8) The layout does not depend on the colours in force: two presentations that differ only in the
+    level colours give the same text once the sequences are removed. -/
+theorem layout_independent_of_colors (p q : Presentation) (depth : Nat) (r : Record) (o₁ o₂ tag : Bytes)
+    (hreg : p.reg = q.reg) (hw : p.tagWidth = q.tagWidth) (hm : p.minWidth = q.minWidth)
+    (h₁ : encodeRecord .color isPrintTable p depth r = some o₁)
+    (h₂ : encodeRecord .color isPrintTable q depth r = some o₂)
+    (hnb : (r.lvl == Lv.always && isBlank r.msg) = false)
+    (htag : p.reg.shortTag r.lvl p.tagWidth = some tag)
+    (hp : ColorInputs p r depth tag) (hq : ColorInputs q r depth tag) :
+    stripSgr o₁ = stripSgr o₂ := by
+  rw [layout_without_escapes p depth r o₁ tag h₁ hnb htag hp,
+      layout_without_escapes q depth r o₂ tag h₂ hnb (by rw [← hreg, ← hw]; exact htag) hq, hm]
+
+/-- the remover drops exactly the sequences: "ESC[32mab ESC[0m| ESC[1;31mx" reads "ab | x"; a lone ESC stays -/
+example : stripSgr [27, 91, 51, 50, 109, 97, 98, 32, 27, 91, 48, 109, 124, 32, 27, 91, 49, 59, 51, 49, 109, 120] = [97, 98, 32, 124, 32, 120] ∧
+          stripSgr [97, 27, 98] = [97, 27, 98] := by decide
+
 /-- the scanner does discriminate: a colour left on before a line break is flagged -/
 example : (sgrScan Sgr.init [27, 91, 51, 49, 109, 120, 10]).bad = true ∧
           (sgrScan Sgr.init [27, 91, 51, 49, 109, 120, 27, 91, 48, 109, 10]).bad = false := by decide
@@ -80,5 +137,56 @@ example : (sgrScan Sgr.init [27, 91, 51, 49, 109, 120, 10]).bad = true ∧
 example : wrapColorAndBg [97, 32] 36 (-1) = [27, 91, 51, 54, 109, 97, 32, 27, 91, 48, 109] ∧
           splitFirstRest [97, 10, 98] = ([97], [98], false) ∧ splitFirstRest [97, 10, 98, 10] = ([97], [98], true) ∧
           rightPad [97] 2 = [97, 32] := by decide
+
+-- non-vacuity of (7): an Info record "hi\nyo" with two attributes and a caller meets every hypothesis,
+-- and its layout is  T| [inf] hi   e=true k=1 f:7 g ⏎     yo ⏎
+def exReg : Registry where
+  allLevels := [6]
+  levelToString := [(6, [105, 110, 102, 111])]
+  stringToLevel := []
+  shortTags := []
+  treatAs := []
+  errorDevice := []
+  colors := []
+def exP : Presentation := { reg := exReg, tagWidth := 3, minWidth := 4, colors := [(6, [36, -1])] }
+def exR : Record where
+  lvl := 6
+  ts := [84]
+  name := []
+  msg := [104, 105, 10, 121, 111]
+  attrs := [some ([107], false, .int 1), some ([101], false, .bool true)]
+  caller := some ([102], 7, [103], [103])
+
+theorem ex_tag : exP.reg.shortTag exR.lvl exP.tagWidth = some [105, 110, 102] := by decide
+theorem ex_notBlank : (exR.lvl == Lv.always && isBlank exR.msg) = false := by decide
+theorem ex_inputs : ColorInputs exP exR 3 [105, 110, 102] where
+  ts := noC0_of_B (by decide)
+  name := noC0_of_B (by decide)
+  tag := noC0_of_B (by decide)
+  msg := by unfold MsgOK; decide
+  attrs := by simp [exR, attrOK, atomsOK, noC0B]
+  caller := by
+    intro file line fn shown h
+    simp [exR] at h
+    obtain ⟨rfl, _, _, rfl⟩ := h
+    exact ⟨noC0_of_B (by decide), noC0_of_B (by decide)⟩
+  clr := by decide
+  bg := by decide
+theorem ex_noMarkup : needsTranslate (rightPad (splitFirstRest exR.msg).1 exP.minWidth) = false := by decide
+theorem ex_layout : colorLayout isPrintTable 4 3 [105, 110, 102] exR =
+    [84, 124, 32, 91, 105, 110, 102, 93, 32, 104, 105, 32, 32, 32, 101, 61, 116, 114, 117, 101, 32, 107, 61, 49, 32, 102, 58, 55,
+     32, 103, 10, 32, 32, 32, 32, 121, 111, 10] := by
+  have hs : splitFirstRest exR.msg = ([104, 105], [121, 111], false) := by decide
+  have hl : splitLines [121, 111] = [[121, 111]] := by decide
+  have hp : prepAttrs exR.attrs = [some ([101], false, .bool true), some ([107], false, .int 1)] := by
+    simp [prepAttrs, exR, List.mergeSort, attrLe, attrLe.bytesLeB, dedupeAttrs, attrKeyEq]
+  unfold colorLayout
+  simp only [hs, hl, hp, plainAttrs, plainVal, encVal]
+  decide
+example : ∃ out, encodeRecord .color isPrintTable exP 3 exR = some out ∧ stripSgr out =
+    [84, 124, 32, 91, 105, 110, 102, 93, 32, 104, 105, 32, 32, 32, 101, 61, 116, 114, 117, 101, 32, 107, 61, 49, 32, 102, 58, 55,
+     32, 103, 10, 32, 32, 32, 32, 121, 111, 10] := by
+  obtain ⟨out, h, hs⟩ := colored_record_reads_as_layout exP 3 exR _ ex_notBlank ex_tag ex_noMarkup ex_inputs
+  exact ⟨out, h, by rw [hs]; exact ex_layout⟩
 
 end Logg.Props.C06
